@@ -204,6 +204,7 @@ def register(R):
                1: LoopSpec(invariant=inner_inv, iteration_checks=inner_iteration)},
     )
     register_legacy_front(R)
+    register_legacy_io_thread(R)
 
 
 def legacy_const(eng, name):
@@ -619,6 +620,65 @@ def register_ranged_downloader(R):
         checks=dlf_checks, raises={'Exception': only_propagates}, raise_when={'Exception': lambda c: None},
         inline_callees=[f'{MPD}._process_future_results'],
     )
+
+
+def register_legacy_io_thread(R):
+    """MultipartDownloader._perform_io_writes (the IO thread) and _download_file_as_future (the parts thread)."""
+    from pyvc.contracts import BytesT
+    from pyvc.values import to_z3_bool, to_int_term
+    # what the IO queue hands out: the shutdown sentinel or an (offset, data) pair
+    R.unpack_kinds = dict(getattr(R, 'unpack_kinds', {}), legacy_queue_item=(Int, BytesT('obj')))
+    R.externals['ioqueue']['get'] = ExtSpec(returns=ExtT('legacy_queue_item'), raises=())
+
+    def gets(evs):
+        return [e for e in evs if e.kind == 'ext' and e.name == 'ioqueue.get']
+
+    def dest_ops(evs):
+        return [e for e in evs if e.kind == 'ext' and e.name in ('legacy_dest.seek', 'legacy_dest.write')]
+
+    def item_fields(item):
+        off = z3.Function('legacy_queue_item_item0', U, z3.IntSort())(item.term)
+        lo = z3.Function('legacy_queue_item_item1_lo', U, z3.IntSort())(item.term)
+        hi = z3.Function('legacy_queue_item_item1_hi', U, z3.IntSort())(item.term)
+        return off, lo, hi
+
+    def io_iteration(l0, l1, evs):
+        g, ops = gets(evs), dest_ops(evs)
+        okk = len(g) == 1 and [e.name for e in ops] == ['legacy_dest.seek', 'legacy_dest.write'] and all(e.extra.get('raised') is None for e in ops)
+        out = {'each_queued_chunk_is_written_once_at_its_offset': (B(bool(okk)), ['C02', 'C06'])}
+        if okk:
+            off, lo, hi = item_fields(g[0].result)
+            d = ops[1].args[0]
+            out['seeks_to_the_chunks_offset_and_writes_exactly_its_data'] = (z3.And(
+                to_int_term(ops[0].args[0]) == off, to_int_term(d.lo) == lo, to_int_term(d.hi) == hi), ['C02'])
+        return out
+
+    def io_checks(c):
+        tr = c.trace
+        li = [i for i, e in enumerate(tr) if e.kind == 'loop']
+        op = calls(tr, 'OSUtils.open')
+        out = {'destination_opened_once_for_writing_from_scratch': (B(
+            len(op) == 1 and op[0].extra['env']['filename'] is c.a_filename and op[0].extra['env']['mode'] == 'wb'), ['C02', 'C06'])}
+        if len(li) == 1:
+            after = tr[li[0] + 1:]
+            g = gets(after)
+            sentinel = c.engine.module_global(c.engine.repo.modules['s3transfer'], 'SHUTDOWN_SENTINEL', c.new.st)
+            out['returns_only_on_the_shutdown_sentinel_without_writing_it'] = (z3.And(
+                B(len(g) == 1 and not dest_ops(after)), to_z3_bool(c.engine.identity(g[0].result, sentinel, c.new.st))) if g else B(False), ['C02', 'C03', 'C06'])
+        return out
+
+    def io_raises(c):
+        tr = flat(c.trace)
+        failed = [e for e in tr if e.kind == 'ext' and e.name in ('legacy_dest.seek', 'legacy_dest.write') and e.extra.get('raised') is not None]
+        ts = [e for e in tr if e.kind == 'ext' and e.name == 'ioqueue.trigger_shutdown']
+        return {**only_propagates(c),
+                # a failing write stops the producers (else they keep filling a queue nobody drains)
+                'a_failing_write_shuts_the_queue_down_before_the_error_propagates': (B(
+                    (not failed) or (len(ts) == 1 and index_of(tr, ts[0]) > index_of(tr, failed[0]))), ['C03', 'C06'])}
+
+    R.contract(f'{MPD}._perform_io_writes', props=['C02', 'C03', 'C06'], params=dict(filename=ExtT('str')),
+               checks=io_checks, raises={'Exception': io_raises, 'OSError': io_raises}, raise_when={'Exception': lambda c: None},
+               loops={0: LoopSpec(invariant=lambda l: {}, iteration_checks=io_iteration)})
 
 
 LEGACY_C06 = [f'{S3T}.download_file', f'{MPD}.download_file']
